@@ -1,4 +1,5 @@
 import LolHtml.Lemmas.TbNames
+import LolHtml.Lemmas.TbJoint3
 /-!
 # C03 — lol-html's tree-builder simulator against the WHATWG tree construction stage
 
@@ -12,9 +13,11 @@ tag.
 Configuration `cfgStd`: scripting enabled (lol-html's assumption: `noscript` is a raw text element), the
 current (2025) `select` parsing, the standard's text (no html5ever deviation switch).
 
-* `C03_tb_text_feedback_partial` (a): HTML-namespace token sequences without `template` start tags and
-  without a `frameset` start tag after a `select` start tag: at every token of a run the strict simulator
-  accepts, lol-html's tokenizer switch is the standard's.
+* `C03_tb_text_feedback_partial` (a): HTML-namespace token sequences without `template` start tags: at every
+  token of a run the strict simulator accepts, lol-html's tokenizer switch is the standard's. (Round 1 also
+  excluded a `frameset` start tag after a `select` start tag; that restriction is gone: while the guard is in
+  a select state the standard's parser is in the body phase with the frameset-ok flag off, where it ignores
+  `frameset` — `Lemmas/TbBody*.lean`, `TbPhase*.lean`, `TbJoint3.lean`.)
 * `C03_tb_guard_sound_partial` (b): on the same class, every text-switching start tag the strict simulator
   accepts is acted upon by the standard's tree builder (never ignored): no silent divergence.
 * `C03_tb_text_feedback_statement` / `C03_tb_guard_sound_statement`: the statements for *all* HTML-namespace
@@ -30,29 +33,39 @@ open LolHtml LolHtml.Model LolHtml.Spec.TreeBuilder
 theorem jrel_init : JRel cfgStd (Sim.new true) State.init .data false :=
   ⟨⟨rfl, rfl, rfl⟩, ginv_init, fun _ => by simp [State.init], by simp [TkRel, State.init], by simp [Sim.new, inSelectState]⟩
 
+theorem jrel2_init : JRel2 cfgStd (Sim.new true) State.init .data :=
+  ⟨⟨rfl, rfl, rfl⟩, ginv_init, fun _ => by simp [State.init], by simp [TkRel, State.init], fun _ => phase_init,
+    fun h => by simp [Sim.new, inSelectState] at h⟩
+
 /-- **(a)** For every token sequence in the HTML namespace (no `svg` / `math` start tag) without a `template`
-start tag and without a `frameset` start tag after a `select` start tag, on which the simulator's hash tests
+start tag, on which the simulator's hash tests
 mean what the standard's name tests mean (`TbEv.Ok`, see `agree_named`): at every token the strict simulator
 accepts, the text-type switch lol-html makes (`title`/`textarea` → RCDATA; `style` `xmp` `iframe` `noembed`
 `noframes` `noscript` → RAWTEXT; `script`; `plaintext`; none otherwise) is the switch the standard's tree
 builder makes, and it is the switch the standard attaches to that tag. -/
 theorem C03_tb_text_feedback_partial (cfg : TagCfg) (evs : List TbEv)
-    (hok : ∀ ev ∈ evs, ev.Ok cfg) (hcls : ∀ ev ∈ evs, HtmlNoTemplate ev.tok)
-    (hfs : NoFramesetAfterSelect false (evs.map (·.tok))) :
+    (hok : ∀ ev ∈ evs, ev.Ok cfg) (hcls : ∀ ev ∈ evs, HtmlNoTemplate ev.tok) :
     ∀ p ∈ joint cfg cfgStd (Sim.new true) State.init .data evs, p.2.1 = p.2.2 ∧ p.2.1 = expSw cfgStd p.1 :=
-  joint_agree cfg evs _ _ _ _ jrel_init hok hcls hfs
+  joint_agree2 cfg evs _ _ _ jrel2_init hok hcls
+
+/-- the round-1 form of (a), with the additional restriction "no `frameset` start tag after a `select` start
+tag" (proved by a coarser invariant, `joint_agree`); a corollary now -/
+theorem C03_tb_text_feedback_partial_r1 (cfg : TagCfg) (evs : List TbEv)
+    (hok : ∀ ev ∈ evs, ev.Ok cfg) (hcls : ∀ ev ∈ evs, HtmlNoTemplate ev.tok)
+    (_hfs : NoFramesetAfterSelect false (evs.map (·.tok))) :
+    ∀ p ∈ joint cfg cfgStd (Sim.new true) State.init .data evs, p.2.1 = p.2.2 ∧ p.2.1 = expSw cfgStd p.1 :=
+  C03_tb_text_feedback_partial cfg evs hok hcls
 
 /-- **(b)** On the same class: a text-switching start tag that the strict simulator lets through is never
 ignored or re-routed by the standard's tree builder — the standard switches the tokenizer too. Put the
 other way round: wherever the standard ignores such a tag (in or after frameset), the strict run has already
 stopped with the ambiguity error. -/
 theorem C03_tb_guard_sound_partial (cfg : TagCfg) (evs : List TbEv)
-    (hok : ∀ ev ∈ evs, ev.Ok cfg) (hcls : ∀ ev ∈ evs, HtmlNoTemplate ev.tok)
-    (hfs : NoFramesetAfterSelect false (evs.map (·.tok))) :
+    (hok : ∀ ev ∈ evs, ev.Ok cfg) (hcls : ∀ ev ∈ evs, HtmlNoTemplate ev.tok) :
     ∀ p ∈ joint cfg cfgStd (Sim.new true) State.init .data evs,
       ∀ n sc a, p.1 = .start n sc a → switchOf cfgStd n ≠ .none → p.2.2 = switchOf cfgStd n := by
   intro p hp n sc a hn _
-  have := C03_tb_text_feedback_partial cfg evs hok hcls hfs p hp
+  have := C03_tb_text_feedback_partial cfg evs hok hcls p hp
   rw [← this.1, this.2, hn]
   rfl
 
@@ -74,7 +87,7 @@ theorem evOf_ok (t : Token) (ht : ∀ n, t.tagName? = some n → n.isOther = fal
 the standard's tree construction stage mentions -/
 theorem C03_tb_text_feedback_gen (ts : List Token)
     (hnamed : ∀ t ∈ ts, ∀ n, t.tagName? = some n → n.isOther = false)
-    (hcls : ∀ t ∈ ts, HtmlNoTemplate t) (hfs : NoFramesetAfterSelect false ts) :
+    (hcls : ∀ t ∈ ts, HtmlNoTemplate t) :
     ∀ p ∈ joint Gen.Tags.cfg cfgStd (Sim.new true) State.init .data (ts.map evOf),
       p.2.1 = p.2.2 ∧ p.2.1 = expSw cfgStd p.1 := by
   apply C03_tb_text_feedback_partial
@@ -85,13 +98,6 @@ theorem C03_tb_text_feedback_gen (ts : List Token)
     obtain ⟨t, ht, rfl⟩ := List.mem_map.mp hev
     have := hcls t ht
     cases t <;> exact this
-  · have : (ts.map evOf).map (·.tok) = ts := by
-      rw [List.map_map]
-      conv => rhs; rw [← List.map_id ts]
-      apply List.map_congr_left
-      intro t _
-      cases t <;> rfl
-    rw [this]; exact hfs
 
 /-- start tag without attributes -/
 def st (n : Name) : Token := .start n false {}
@@ -105,6 +111,18 @@ example :
         .end .title, st .frameset, st .noframes].map evOf)).map (fun p => (p.2.1, p.2.2)) =
       [(.none, .none), (.none, .none), (.none, .none), (.rcdata, .rcdata), (.none, .none), (.none, .none),
        (.none, .none), (.none, .none), (.rcdata, .rcdata), (.none, .none), (.none, .none), (.rawtext, .rawtext)] := by
+  decide +kernel
+
+/-- non-vacuity of the round-2 widening: `<table><tr><td><select><frameset><script></script></select><textarea>`
+— a `frameset` start tag while the guard is in `InSelect` (excluded in round 1): the standard ignores it
+(frameset-ok flag off), the guard stays in `InSelect`, `script` and, after `</select>`, `textarea` switch on both
+sides. -/
+example :
+    (joint Gen.Tags.cfg cfgStd (Sim.new true) State.init .data
+      ([st .table, st .tr, st .td, st .select, st .frameset, st .script, .end .script, .end .select,
+        st .textarea].map evOf)).map (fun p => (p.2.1, p.2.2)) =
+      [(.none, .none), (.none, .none), (.none, .none), (.none, .none), (.none, .none), (.scriptData, .scriptData),
+       (.none, .none), (.none, .none), (.rcdata, .rcdata)] := by
   decide +kernel
 
 /-- non-vacuity of the refusal: `<frameset><frame><textarea>` — the strict run stops at `textarea` (two
